@@ -5,6 +5,7 @@ from vf.lazy import libx, common
 from vf.monitors import algos
 
 PROP = "C05"
+TECHNIQUE = ('runtime monitoring of the exact configurations (PuLP; CPLEX classes through a generic 0-1 ILP stand-in that records the model) against a 3^n subset-DP oracle with all minimisers; exhaustive model monitor for n<=4')
 RULE = ("cases = dataset (D2-D4, D7, D9, D10: non-trivial components, sparse rankings; n<=7 quick, <=9 thorough) x "
         "scheme (S1-S3,S6) x exact configuration {CPLEX absent: selector optimize on/off, PuLP model; stand-in CPLEX "
         "(mode D): CPLEX model optimize on/off, paper-optim1 model, selector; one / all optimal rankings}; oracle = 3^n "
